@@ -55,6 +55,16 @@ def make_plan(seed: int, tier: str) -> dict:
         plan["schedule"] = st.choice(["sequential", "shuffled", "threads"]) if n > 1 else "sequential"
         plan["workers"] = st.randint(2, 4)
         plan["n_jobs"] = st.choice([1, 2, 3, 4])
+        # documented optimiser options (drawn last so that earlier plan fields keep their values)
+        if st.bernoulli(0.3):
+            plan["use_jacobian"] = False
+        if st.bernoulli(0.35):
+            plan["custom_scipy"] = st.choice([
+                {"method": "Powell", "options": {"maxiter": st.randint(1, 3)}},                      # stops unconverged: the convergence-issue path
+                {"method": "Nelder-Mead", "options": {"maxiter": 25}},
+                {"method": "Powell", "options": {"xtol": 1e-2, "ftol": 1e-2, "maxiter": 50}},
+                {"method": "L-BFGS-B", "options": {"maxiter": 15}},                                 # finite-difference gradient
+            ])
     else:
         n_iter = st.randint(2, 14 if tier == "quick" else 40)
         plan["n_iter"] = n_iter
@@ -65,6 +75,7 @@ def make_plan(seed: int, tier: str) -> dict:
             plan["n_burn_in_iter_frac"] = st.choice([0.0, 0.1, 0.29, 0.5, 0.9, round(st.uniform(0, 0.99), 3)])
         if st.bernoulli(0.25) and n_iter >= 6:
             plan["annealing"] = {"do_annealing": True, "initial_temperature": st.choice([2, 5, 10]), "n_plateau": st.randint(2, 3), "n_iter_frac": 0.5}
+            plan["annealing"]["n_iter_frac"] = st.choice([0.5, 0.5, 0.2, 0.9])
         dec = {}
         streak = st.bernoulli(0.4)
         for k in range(1, n_iter + 1):
@@ -146,6 +157,11 @@ def run_plan(plan: dict) -> dict:
     kw = dict(seed=plan["aseed"], progress_bar=False)
     if algo == "scipy_minimize":
         kw["n_jobs"] = plan["n_jobs"]
+        if "use_jacobian" in plan:
+            kw["use_jacobian"] = plan["use_jacobian"]
+        if plan.get("custom_scipy"):
+            kw["custom_scipy_minimize_params"] = copy.deepcopy(plan["custom_scipy"])
+            C["probe.custom_optimiser_options"] += 1
     else:
         kw["n_iter"] = plan["n_iter"]
         for k in ("n_burn_in_iter", "n_burn_in_iter_frac", "annealing"):
